@@ -45,6 +45,21 @@ def check(prog, run):
     f = rel(prog.mods[fi.mod].path)
     pairing(prog, run, fi, f)
     cor_grid(prog, run, fi, f)
+    # the single-setup run methods hand their run parameters to the estimator
+    n_callers = 0
+    for ci in prog.classes.values():
+        if not ci.mod.startswith("pyoma2.algorithms"):
+            continue
+        m = ci.methods.get("run")
+        if m is None:
+            continue
+        res = astq.handover(prog, m, fi.qual, {"nxseg": {"self.run_params.nxseg"}, "method": {"self.run_params.method_SD"},
+                                                "pov": {"self.run_params.pov"}, "dt": {"self.dt", "1 / self.fs"}})
+        for c, p_, ok, detail in res:
+            n_callers += 1
+            run.ob("R-param", m.qual, f"run_params -> SD_est.{p_}", ok, detail, witness=detail[:90], file=rel(prog.mods[m.mod].path), node=c, config=p_)
+    if not n_callers:
+        run.ob("R-param", "pyoma2.algorithms", "callers of SD_est", None, "no run() method calling SD_est found")
     from .C04 import params as c04_params
     # the SD_est part of C04's parameter rule is shared
     before = len(run.obs)
